@@ -141,6 +141,32 @@ def gen_api_case(rng):
       ops.append({'op': 'getbq', 'q': q, 'scope': rng.choice(scopes), 'inherit': rng.random() < 0.5,
                   '_also_get_configurable': True})
     ops.append({'op': 'config'})
+  if rng.random() < 0.4:
+    # a spelling that is unique while it is first used, then made ambiguous by a later registration: every API has to
+    # ask the registry as it is now (bind / query outside parse_config as well as config text)
+    reg = rng.choice(regs)
+    parts = reg['_selector'].split('.')
+    k = rng.randint(1, len(parts))
+    sp = '.'.join(parts[-k:])
+    cls = [n for n, c in G.param_classes(reg).items() if c == 'valid']
+    if cls and sp in unambiguous_spellings(reg['_selector'], names):
+      arg = rng.choice(cls)
+      for form in rng.sample(['tuple', 'str', 'text'], 2):
+        ops.append({'op': 'bind', 'scope': '', 'sel': sp, 'arg': arg, 'val': rng.randint(1, 9), '_form': form, 'block': False})
+      ops.append({'op': 'query', 'scope': '', 'sel': sp, 'arg': arg})
+      late = G.gen_late_register(rng, 90)
+      lmod = '.'.join(['late'] + parts[-k:-1])
+      late.update(name=parts[-1], module=lmod, _pymodule=lmod, _selector=lmod + '.' + parts[-1], sig=reg['sig'],
+                  _kind=reg['_kind'] if reg['_kind'] == 'fn' else 'fn')
+      if late['_kind'] == 'fn' and reg['_kind'] != 'fn':
+        late['sig'] = {'pos': [[arg, {'v': 0}]], 'kwonly': [], 'varargs': False, 'varkw': False}
+      ops.append(late)
+      names.append(late['_selector'])
+      for form in ('tuple', 'str', 'text'):
+        ops.append({'op': 'bind', 'scope': '', 'sel': sp, 'arg': arg, 'val': rng.randint(10, 19), '_form': form, 'block': False})
+        ops.append({'op': 'query', 'scope': '', 'sel': sp, 'arg': arg})
+      ops.append({'op': 'getbq', 'q': sp, 'scope': [], 'inherit': True, '_also_get_configurable': True})
+      ops.append({'op': 'config'})
   # references under partial spellings: a macro addressed as @name/macro(), a configurable as @suffix
   if rng.random() < 0.6:
     mname = rng.choice(['batch', 'lr', 'a/b'])
@@ -218,6 +244,16 @@ def gen_reported_case(rng):
     if cls:
       binds.append({'op': 'bind', 'scope': rng.choice(['', 'a', 'a/b']), 'sel': reg['_selector'], 'arg': rng.choice(cls),
                     'val': G.gen_value(rng, 0), '_form': 'tuple', 'block': False})
+  # values that are references to entries whose class / function names recur: the name printed inside the value
+  # has to resolve back as well
+  classes = [o for o in ops if o.get('_method_ops')]
+  for reg in regs:
+    cls = [n for n, c in G.param_classes(reg).items() if c == 'valid']
+    if cls and classes and rng.random() < 0.6:
+      tgt = rng.choice(classes + [r2 for r2 in regs if r2 is not reg])
+      binds.append({'op': 'bind', 'scope': rng.choice(['', 'a']), 'sel': reg['_selector'], 'arg': rng.choice(cls),
+                    'val': {'ref': [rng.choice([[], ['s']]), tgt['_selector'], rng.random() < 0.3]},
+                    '_form': rng.choice(['tuple', 'text']), 'block': False})
   return {'dom': 'gin', 'ops': ops + binds + [{'op': 'cfgdoc'}], '_order2': binds, '_regops': ops, '_width': [80, 4],
           '_kind': 'reported', '_imports': []}
 
